@@ -33,7 +33,6 @@ def verdict (cfg : Cfg) (p : Program) (edb : DB) (impl : String) : String × Boo
   let cls :=
     if queryRel p != answeredRel p then "last_rule_head_not_last_head"
     else if lastHeadMultiClauseWithSip cfg p then "last_head_multi_clause_with_sip"
-    else if repeatedVarUnderJoinPlanning cfg p then "repeated_var_in_scan_under_join_planning"
     else "unclassified"
   (specFail cls detail, nt)
 
